@@ -109,13 +109,26 @@ def keyVerdict (u : Uni) (k : Key) (md : Modes) (seqs : List PSeq) (dkTok : Stri
     match bv with
     | some e => e
     | none =>
+    -- shifted-code chords: (ESC +) the character Shift produces, read back as (that character, mods without Shift)
+    let sv : Option String :=
+      if ShiftedDomain k then
+        match shiftedLegacy k, seqs, parseKey? dkTok with
+        | some s, [.plain s'], some dk =>
+          if s' ≠ s then some s!"FAIL [shifted-code chord] key {k.keycode} with Shift reports the shifted code {k.shifted}; the xterm report of the chord is (ESC +) that character, something else was written"
+          else if decide (shiftedArrives u k dk) then none
+          else some s!"FAIL [shifted-code chord] forwarded key decodes to {showKey dk}, which does not match ({k.shifted}, mods {KeyEnc.unshift xm})"
+        | _, _, _ => some s!"FAIL [shifted-code chord] forwarded bytes are not exactly one key sequence ({seqs.length} sequences)"
+      else none
+    match sv with
+    | some e => e
+    | none =>
     if XtermDomainU u k then
       match seqs, parseKey? dkTok with
       | [_], some dk =>
         if decide (keyArrives u k dk) then "ok"
         else s!"FAIL [key round trip] forwarded key decodes to {showKey dk}, which does not match key {k.keycode} mods {xm}"
       | _, _ => s!"FAIL [key round trip] forwarded bytes are not exactly one key sequence ({seqs.length} sequences)"
-    else if textDue k ∨ (xm &&& KeyEnc.ctrlBit ≠ 0 ∧ 32 ≤ k.keycode ∧ k.keycode < Gen.Keys.maxRune ∧ validRune k.keycode) then "ok"
+    else if textDue k ∨ ShiftedDomain k ∨ (xm &&& KeyEnc.ctrlBit ≠ 0 ∧ 32 ≤ k.keycode ∧ k.keycode < Gen.Keys.maxRune ∧ validRune k.keycode) then "ok"
     else "-"
 
 def mouseVerdict (md : Modes) (m : Mouse) (seqs : List PSeq) (pmTok : String) : String :=
